@@ -105,6 +105,7 @@ type StepSpec struct {
 	BgLate        bool     `json:"bgLate,omitempty"` // that background process prints a line to the step's stdout just before it ends
 	BgMs          int      `json:"bgMs,omitempty"`   // the command leaves a background process in its process group that holds its output open for this long (a daemonising script)
 	Direct        bool     `json:"direct,omitempty"` // in-process executor that calls Write on the given writers (like http/jq/mail)
+	Dir           string   `json:"dir,omitempty"`    // working directory of the command (one that does not exist: every attempt fails while the executor is set up)
 }
 
 type HandlerSpec struct {
@@ -173,6 +174,9 @@ func (s *StepSpec) yaml(ind string, cmd string) string {
 	}
 	if s.Direct {
 		fmt.Fprintf(&b, "%sexecutor: simdirect\n", in)
+	}
+	if s.Dir != "" {
+		fmt.Fprintf(&b, "%sdir: %s\n", in, yq(s.Dir))
 	}
 	return b.String()
 }
